@@ -142,6 +142,50 @@ Definition old_recs_ok (o : op) (prev new : dump) : bool :=
           ((q_rem5 r =? q_rem5 r') || match o with OMsg _ _ _ => rstate_eqb (q_st5 r') SEst | _ => false end)
       end) (snd (fst t))) (d_tun prev).
 
+(* Whose records a control message may touch. A message received over tunnel mh changes the state / remote index of
+   (A) the record of mh itself that a response names by its index, (B) as target, mh's own record for the source,
+   (C) on a relay, the target leg: the record for the source on the primary tunnel of the requested target, which is put
+       back to Requested and keeps its remote index, (D) the peer leg of a completed forwarding record of mh: the
+       record for RelayToAddr on the primary tunnel of that record's peer, Established unless this node is still
+       waiting for that peer's own answer, remote index kept - and of nothing else. In particular a record of another
+       peer's tunnel is never completed (state and remote index) by an index named over mh, and a leg becomes
+       Established only by a response received over the tunnel that owns it, or as (B) / (D). *)
+Definition msg_scope_ok (me : list N) (o : op) (prev new : dump) : bool :=
+  match o with
+  | OMsg mh w _ =>
+      forallb (fun t =>
+        let x := fst (fst t) in
+        forallb (fun r =>
+          match d_rec_idx new x (q_idx5 r) with
+          | None => false
+          | Some r' =>
+              (rstate_eqb (q_st5 r) (q_st5 r') && (q_rem5 r =? q_rem5 r')) ||
+              match decode w with
+              | None => false
+              | Some (_, from, to) =>
+                  let own := x =? mh in
+                  let keep := q_rem5 r =? q_rem5 r' in
+                  if w_typ w =? 2 then
+                    (own && (q_idx5 r =? w_init w) && rstate_eqb (q_st5 r') SEst && (q_rem5 r' =? w_resp w)) ||      (* A *)
+                    match d_rec_idx prev mh (w_init w) with                                                        (* D *)
+                    | Some r0 =>
+                        match q_ty5 r0 with
+                        | TFwd => optN_eqb (d_primary prev (q_peer5 r0)) (Some x) && (q_peer5 r =? to) &&
+                                  negb (rstate_eqb (q_st5 r) SReq) && rstate_eqb (q_st5 r') SEst && keep
+                        | TTerm => false
+                        end
+                    | None => false
+                    end
+                  else if w_typ w =? 1 then
+                    (own && amem to me && (q_peer5 r =? from) && rstate_eqb (q_st5 r') SEst && (q_rem5 r' =? w_init w)) ||   (* B *)
+                    (d_am prev && negb (amem to me) && negb (amem from me) &&                                          (* C *)
+                     optN_eqb (d_primary prev to) (Some x) && (q_peer5 r =? from) && rstate_eqb (q_st5 r') SReq && keep)
+                  else false
+              end
+          end) (snd (fst t))) (d_tun prev)
+  | _ => true
+  end.
+
 (* a record that was not there before: who may create what *)
 Definition birth_ok (me : list N) (g : ghost) (o : op) (prev : dump) (h : N) (r : rec5) : bool :=
   match o with
@@ -233,7 +277,7 @@ Definition spec_step (me : list N) (g : ghost) (prev : dump) (o : op) (ob : obs)
   let gone := filter (fun h => d_in_hosts prev h && negb (d_in_hosts new h)) (map (fun t => fst (fst t)) (d_tun prev)) in
   let g2 := mkG (g_addrs g1) (map (fun b => (fst b, q_idx5 (snd b), d_am prev)) births ++ g_born g1) (gone ++ g_dead g1) in
   let ok :=
-    old_recs_ok o prev new &&
+    old_recs_ok o prev new && msg_scope_ok me o prev new &&
     forallb (fun b => birth_ok me g1 o prev (fst b) (snd b)) births &&
     forallb (hit_ok me g2 new) (ob_hits ob) &&
     forallb (pkt_ok g2 new (ob_hits ob)) (ob_pkts ob) &&
